@@ -213,6 +213,22 @@ def _frac(model, t):
     return str(v)
 
 
+def _model_repr(model, syms):
+    out = {}
+    for k, v in syms.items():
+        if k.startswith("u2_"):
+            continue
+        try:
+            if z3.is_expr(v):
+                out[k] = _frac(model, v)
+            else:
+                fi = model[v]
+                out[k] = str(fi)[:300] if fi is not None else None
+        except Exception:
+            out[k] = None
+    return out
+
+
 def run_unit(udesc, tier="quick", timeout_ms=None, known=None):
     """Execute a unit, discharge its obligations.  Returns a JSON-able dict."""
     t0 = time.time()
@@ -277,7 +293,7 @@ def run_unit(udesc, tier="quick", timeout_ms=None, known=None):
 
                     r2, model, _, _ = run_z3(list(ob.pc) + [z3.Not(ob.goal)], timeout_ms * 3)
                 if model is not None:
-                    rec["model"] = {k: (_frac(model, v) if z3.is_expr(v) and not z3.is_func_decl(v) else str(model[v]) if model[v] is not None else None) for k, v in syms.items() if not k.startswith("u2_")}
+                    rec["model"] = _model_repr(model, syms)
                     rp = ob.meta.get("replay")
                     if rp is not None:
                         try:
@@ -301,7 +317,7 @@ def run_unit(udesc, tier="quick", timeout_ms=None, known=None):
                                 rec["known_outside"] = True
                                 if r3["model"] is not None:
                                     m3 = r3["model"]
-                                    rec["model"] = {k: (_frac(m3, v) if z3.is_expr(v) and not z3.is_func_decl(v) else None) for k, v in syms.items() if not k.startswith("u2_")}
+                                    rec["model"] = _model_repr(m3, syms)
                                     rp = ob.meta.get("replay")
                                     if rp is not None:
                                         rec["replay_spec"] = rp(lambda t: _eval_model(m3, to_term(t)))
